@@ -2,7 +2,12 @@ package fw
 
 import (
 	"fmt"
+	"go/ast"
+	"go/printer"
+	"go/token"
 	"go/types"
+	"os"
+	"sort"
 	"strings"
 
 	"golang.org/x/tools/go/ssa"
@@ -166,6 +171,33 @@ func DumpIndexSites(p *Program, spec string) {
 	for _, f := range FamilyOf(fn) {
 		for _, s := range IndexSites(f) {
 			fmt.Printf("%s %s %s %s[%s] guarded=%v\n", p.Pos(InstrPos(s.Instr)), FuncName(f), s.Kind, s.Base, s.Index, s.Guarded)
+		}
+	}
+}
+
+// DumpInlined prints the transformed source of the functions whose name contains sub, and
+// the statistics of the transformation.
+func DumpInlined(p *Program, sub string) {
+	if p.Inlined != nil {
+		fmt.Printf("inlined view: %d call sites expanded; skipped: %v\n", p.Inlined.Sites, p.Inlined.Skipped)
+		var names []string
+		for n, k := range p.Inlined.Callees {
+			names = append(names, fmt.Sprintf("%s x%d", Short(n), k))
+		}
+		sort.Strings(names)
+		fmt.Println("callees:", strings.Join(names, ", "))
+	}
+	for _, pk := range p.All {
+		for _, f := range pk.Syntax {
+			for _, d := range f.Decls {
+				fd, ok := d.(*ast.FuncDecl)
+				if !ok || !strings.Contains(fd.Name.Name, sub) {
+					continue
+				}
+				fmt.Printf("// ---- %s (%s)\n", fd.Name.Name, p.Pos(fd.Pos()))
+				_ = printer.Fprint(os.Stdout, token.NewFileSet(), fd)
+				fmt.Println()
+			}
 		}
 	}
 }
